@@ -42,7 +42,7 @@ let () =
     let line = input_line stdin in
     toks := String.split_on_char ' ' line |> List.filter (fun x -> x <> "");
     let prog = stmts (int ()) in
-    match gens false false false prog with
+    match gens (fun n -> int_of_n n <> 9) false false false prog with
     | SyntaxErr -> print_endline "E"
     | Ok t ->
       let ok = List.for_all (py_ok toy false) t in
